@@ -304,7 +304,10 @@ def expr_roots(ex, e):
             f, r = expr_roots(ex, e.func.value)
             return False, r
         if isinstance(e.func, ast.Attribute) and isinstance(e.func.value, ast.Name) and e.func.value.id == 'copy':
-            return True, set()
+            if e.func.attr == 'deepcopy':
+                return True, set()
+            # copy.copy: a new outer object that shares everything inside
+            return True, set().union(*[expr_roots(ex, a)[1] for a in e.args]) if e.args else set()
         if isinstance(e.func, ast.Name) and e.func.id in FRESH_CALLS:
             r = set()
             for a in e.args:
